@@ -146,8 +146,11 @@ void cpputest_free_location_with_leak_detection(void* buffer, const char* file, 
 
 #if CPPUTEST_HAVE_EXCEPTIONS
 #define UT_THROW_BAD_ALLOC_WHEN_NULL(memory) if ((memory) == NULLPTR) throw CPPUTEST_BAD_ALLOC()
+/* The nothrow forms are noexcept. A test failure that the allocator raises (as an exception) must not leave them: it has been recorded already */
+#define UT_RETURN_NULL_WHEN_THROWN(allocation) try { return allocation; } catch (...) { return NULLPTR; }
 #else
 #define UT_THROW_BAD_ALLOC_WHEN_NULL(memory)
+#define UT_RETURN_NULL_WHEN_THROWN(allocation) return allocation
 #endif
 
 static void* threadsafe_mem_leak_operator_new (size_t size) UT_THROW(CPPUTEST_BAD_ALLOC)
@@ -161,7 +164,7 @@ static void* threadsafe_mem_leak_operator_new (size_t size) UT_THROW(CPPUTEST_BA
 static void* threadsafe_mem_leak_operator_new_nothrow (size_t size) UT_NOTHROW
 {
     MemLeakScopedMutex lock;
-    return MemoryLeakWarningPlugin::getGlobalDetector()->allocMemory(getCurrentNewAllocator(), size);
+    UT_RETURN_NULL_WHEN_THROWN(MemoryLeakWarningPlugin::getGlobalDetector()->allocMemory(getCurrentNewAllocator(), size));
 }
 
 static void* threadsafe_mem_leak_operator_new_debug (size_t size, const char* file, size_t line) UT_THROW(CPPUTEST_BAD_ALLOC)
@@ -183,7 +186,7 @@ static void* threadsafe_mem_leak_operator_new_array (size_t size) UT_THROW(CPPUT
 static void* threadsafe_mem_leak_operator_new_array_nothrow (size_t size) UT_NOTHROW
 {
     MemLeakScopedMutex lock;
-    return MemoryLeakWarningPlugin::getGlobalDetector()->allocMemory(getCurrentNewArrayAllocator(), size);
+    UT_RETURN_NULL_WHEN_THROWN(MemoryLeakWarningPlugin::getGlobalDetector()->allocMemory(getCurrentNewArrayAllocator(), size));
 }
 
 static void* threadsafe_mem_leak_operator_new_array_debug (size_t size, const char* file, size_t line) UT_THROW(CPPUTEST_BAD_ALLOC)
@@ -218,7 +221,7 @@ static void* mem_leak_operator_new (size_t size) UT_THROW(CPPUTEST_BAD_ALLOC)
 
 static void* mem_leak_operator_new_nothrow (size_t size) UT_NOTHROW
 {
-    return MemoryLeakWarningPlugin::getGlobalDetector()->allocMemory(getCurrentNewAllocator(), size);
+    UT_RETURN_NULL_WHEN_THROWN(MemoryLeakWarningPlugin::getGlobalDetector()->allocMemory(getCurrentNewAllocator(), size));
 }
 
 static void* mem_leak_operator_new_debug (size_t size, const char* file, size_t line) UT_THROW(CPPUTEST_BAD_ALLOC)
@@ -237,7 +240,7 @@ static void* mem_leak_operator_new_array (size_t size) UT_THROW(CPPUTEST_BAD_ALL
 
 static void* mem_leak_operator_new_array_nothrow (size_t size) UT_NOTHROW
 {
-    return MemoryLeakWarningPlugin::getGlobalDetector()->allocMemory(getCurrentNewArrayAllocator(), size);
+    UT_RETURN_NULL_WHEN_THROWN(MemoryLeakWarningPlugin::getGlobalDetector()->allocMemory(getCurrentNewArrayAllocator(), size));
 }
 
 static void* mem_leak_operator_new_array_debug (size_t size, const char* file, size_t line) UT_THROW(CPPUTEST_BAD_ALLOC)
